@@ -97,7 +97,13 @@ def run(name, checks, tier='quick'):
                 if l.startswith('VIOLATION') and i + 1 < len(lines):
                     first = lines[i + 1].strip()[:400]
                     break
+            devs = [l for l in o.splitlines() if l.startswith('MODEL-DEVIATION')]
             res[c] = {'exit': rc, 'violations': len(viol), 'first': first, 'wall_s': round(time.time() - t0)}
+            if devs:
+                res[c]['model_deviations'] = len(devs)
+                res[c]['first_deviation'] = devs[0][:300]
+            if rc == 2:
+                res[c]['tool_error'] = ' '.join(l for l in o.splitlines() if 'TOOL-ERROR' in l)[:300]
             print(c, json.dumps(res[c]))
     finally:
         shutil.rmtree(evid, ignore_errors=True)
